@@ -31,6 +31,9 @@ func TestC16(t *testing.T) {
 		}
 		order := rapid.Permutation(allIdx(nopts+nargs)).Draw(rt, "order")
 		c := &ImplicitCase{D: d, Order: order}
+		for i := 0; i < nargs; i++ {
+			c.ArgEnv = append(c.ArgEnv, chance(rt, 1, 5, "argenv"))
+		}
 		_, ast, dd := explicitSpec(c)
 		if nopts+nargs > 0 {
 			switch k := intn(rt, 6, "argvsrc"); {
